@@ -46,6 +46,9 @@ type Env struct {
 	Truncated bool  // the last ListUsers call ran into its deadline
 	LoEngine int     // ListObjects engine of the server the current call goes to (-1 = from the scenario knob)
 	SigExtra string // appended to violation signatures by the judges (context of the current call)
+	// GrantNotFromCrossUsersets: the current wrongly-granted answer was obtained again on a copy of the
+	// store WITHOUT the tuples finding F39 needs, so F39's shape tag must not claim it
+	GrantNotFromCrossUsersets bool
 	cleanup []func()
 }
 
@@ -312,7 +315,7 @@ func (e *Env) JudgeCheck(who string, rq gen.Request, st *rm.State, allowed bool,
 		} else if st.ShadowedSibling(rq.User, rq.Ctx) {
 			sig += " unsatisfied_conditional_tuple_shadows_sibling_of_same_object"
 		}
-		e.Violate("false_for_true", sig+e.denyTags(rm.ObjType(rq.Obj), rq.Rel), "%s: allowed=false, %s", desc, ref)
+		e.Violate("false_for_true", sig+e.denyTags(st, rm.ObjType(rq.Obj), rq.Rel), "%s: allowed=false, %s", desc, ref)
 	case !allowed && sup.CanBeTrue:
 		if sup.Approx {
 			simrt.Probe("approx_skipped")
@@ -325,7 +328,7 @@ func (e *Env) JudgeCheck(who string, rq gen.Request, st *rm.State, allowed bool,
 		} else if st.ShadowedSibling(rq.User, rq.Ctx) {
 			sig += " unsatisfied_conditional_tuple_shadows_sibling_of_same_object"
 		}
-		e.Violate("false_for_undecided", sig+e.denyTags(rm.ObjType(rq.Obj), rq.Rel), "%s: allowed=false although the answer depends on a condition that cannot be evaluated; the request should fail (%s)", desc, ref)
+		e.Violate("false_for_undecided", sig+e.denyTags(st, rm.ObjType(rq.Obj), rq.Rel), "%s: allowed=false although the answer depends on a condition that cannot be evaluated; the request should fail (%s)", desc, ref)
 	default:
 		if sup.N > 0 {
 			simrt.Probe("decided_despite_unevaluable")
@@ -380,11 +383,52 @@ func (e *Env) engineTags(st *rm.State, rq gen.Request) string {
 
 // denyTags: a defect that wrongly GRANTS membership (F39) turns into a lost answer when the
 // wrongly granted relation sits in an exclusion's subtrahend.
-func (e *Env) denyTags(typ, rel string) string {
-	if ReachesKind(e.Sc.Model, typ, rel, rm.Difference) && TwoUsersetsOfOneType(e.Sc.Model, typ, rel) {
+func (e *Env) denyTags(st *rm.State, typ, rel string) string {
+	if ReachesKind(e.Sc.Model, typ, rel, rm.Difference) && TwoUsersetsOfOneType(e.Sc.Model, typ, rel) && crossUsersetTuple(e.Sc.Model, st) {
 		return " under_exclusion two_userset_restrictions_of_one_type"
 	}
 	return ""
+}
+
+// withoutCrossUsersetTuples drops the tuples crossUsersetTuple looks for that are VALID for the model
+// (F39 is about those; the engine filters the invalid ones out before the strategy sees them).
+func withoutCrossUsersetTuples(m *rm.Model, ts []rm.Tuple) []rm.Tuple {
+	var out []rm.Tuple
+	for _, t := range ts {
+		if !m.ValidForRead(t) || !crossUsersetTuple(m, &rm.State{Tuples: []rm.Tuple{t}}) {
+			out = append(out, t)
+		}
+	}
+	return out
+}
+
+// crossUsersetTuple: the state holds a tuple T:x#r@T:y#r2 with r2 != r on a relation r that lists both
+// its own userset T#r and T#r2 — the tuple the recursive userset strategy follows as if it named r
+// (F39). Without such a tuple the two restrictions alone change nothing.
+func crossUsersetTuple(m *rm.Model, st *rm.State) bool {
+	for _, t := range st.Tuples {
+		ut, _, ur := rm.SplitUser(t.User)
+		if ur == "" || ur == t.Rel || rm.ObjType(t.Obj) != ut {
+			continue
+		}
+		r := m.Rel(ut, t.Rel)
+		if r == nil {
+			continue
+		}
+		self, other := false, false
+		for _, res := range r.Restrictions {
+			if res.Type == ut && res.Relation == t.Rel {
+				self = true
+			}
+			if res.Type == ut && res.Relation == ur {
+				other = true
+			}
+		}
+		if self && other {
+			return true
+		}
+	}
+	return false
 }
 
 // FiredTotal is the number of injected faults fired so far in this run.
@@ -418,7 +462,7 @@ func (e *Env) FaultTag(firedBefore int, first bool, reissue func() (bool, error)
 // lost membership sits under an exclusion's subtrahend.
 func (e *Env) grantTags(st *rm.State, rq gen.Request) string {
 	inv := ""
-	if TwoUsersetsOfOneType(e.Sc.Model, rm.ObjType(rq.Obj), rq.Rel) {
+	if !e.GrantNotFromCrossUsersets && TwoUsersetsOfOneType(e.Sc.Model, rm.ObjType(rq.Obj), rq.Rel) && crossUsersetTuple(e.Sc.Model, st) {
 		// F39: the recursive userset fast path follows every userset of the relation's own type as if
 		// it named the relation itself
 		inv = " two_userset_restrictions_of_one_type"
